@@ -3,6 +3,8 @@ CONSTANTS
   Repaired = TRUE
   MaxStyles = 2
   UseAligns = FALSE
+  RComps <- Components
+  RIOs <- IOsAll
   Depth = 4
   OwnFields <- MCStyled
   BorderFields <- MCRule
